@@ -71,7 +71,11 @@ def run_parser_property(prop, evals=None, N=None, filt=None, level_text='', job=
         gs = [g for g in gs if re.search(os.environ['VERIF_ONLY'], g.name)]
     N = N or BOUNDS[t]
     opts = dict(evals=evals or [prop], validate=40 if t == 'quick' else 400, seed=sd)
-    jobs = [(g, prop, N, opts) for g in gs]
+    # thorough tier: one token more for everything, two more for the curated micro-grammars
+    def bound(g):
+        if t == 'thorough' and N == BOUNDS['thorough']: return N if g.meta.get('family') in ('curated', 'pratt') else N - 1
+        return N
+    jobs = [(g, prop, bound(g), opts) for g in gs]
     results = []
     workers = int(os.environ.get('VERIF_JOBS', '16'))
     side = {}
